@@ -252,6 +252,28 @@ theorem C14_delivery_partial {id n t base : Nat} (h1 : 1 ≤ t) (h2 : t ≤ n) {
   rw [List.append_assoc] at this
   exact (List.nodup_append.mp this).1
 
+/-- CAVEAT (not part of the property statement, which asks for exactly-once and intact): the *order* of delivery
+    per tag is not the order of arrival once MPI has reported two window receives out of order (possible when a large
+    rendezvous message from one source completes after a later small one from another source).  Here tag 0 has 4
+    posted / 2 tested receives; message 11 completes before 10; later 14 and 15 (think: same source) are both complete
+    when `MPI_Testsome` is called and are reported together in increasing index order — and 15 is delivered first,
+    because the rotation refilled the window in pool order (0, 1) while MPI's posted order had become (1, 0). -/
+theorem C14_delivery_order_caveat :
+    let g := ((((((((GPool.init 0 4 2 0).arrive 10).arrive 11).pass [1]).pass [0]).arrive 12).arrive 13).pass [0, 1])
+    let g' := ((g.arrive 14).arrive 15).pass [0, 1]
+    GReach 0 4 2 0 g' ∧ g'.arrived = [10, 11, 12, 13, 14, 15] ∧ g'.delivered = [11, 10, 12, 13, 15, 14] := by
+  refine ⟨?_, by decide, by decide⟩
+  refine GReach.pass _ (GReach.arrive _ (GReach.arrive _ (GReach.pass _ (GReach.arrive _ (GReach.arrive _
+    (GReach.pass _ (GReach.pass _ (GReach.arrive _ (GReach.arrive _ GReach.init)) ?_ ?_) ?_ ?_))) ?_ ?_))) ?_ ?_
+  all_goals first
+    | decide
+    | (intro j hj
+       simp only [List.mem_cons, List.mem_singleton, List.not_mem_nil, or_false] at hj
+       rcases hj with rfl | rfl <;> (unfold GReportable; decide))
+    | (intro j hj
+       simp only [List.mem_cons, List.mem_singleton, List.not_mem_nil, or_false] at hj
+       subst hj; unfold GReportable; decide)
+
 /-! ## Non-vacuity -/
 
 /-- A configuration with two tags (posted 3 / tested 2 and posted 1 / tested 1), 2 dynamic slots, quota 1. -/
